@@ -26,7 +26,8 @@ META = {
                   "not a verdict). Lifecycle ids are compared up to an injective renaming built by TLC. Sorted pipelines are "
                   "only checked for permutation (the order is C10's claim; the sorter reads the lifecycle table while the "
                   "detector still updates it). Termination is observed with a 120 s bound after eos/drop and a 300 s bound on "
-                  "any single receive. Streams are clean boots (monotone reception times, sane timestamps): detector corner "
+                  "any single receive. Long stalls: a few cases per run hold the producer (2.6-3.5 s, thorough also 6 s) or the "
+                  "consumer (2.6-3.2 s) once at a chosen index; a stage time-out longer than that is not exercised. Streams are clean boots (monotone reception times, sane timestamps): detector corner "
                   "cases are C05's; a case whose reference run itself fails is skipped and counted.",
 }
 
@@ -143,6 +144,7 @@ def check(ctx):
     binp = c.build_harness("c13")
     trace = ctx.path("trace.ndjson")
     nrand, maxlen, scnlen = (72, 200, 40) if quick else (800, 800, 60)
+    nlong = 10 if quick else 24     # one long (2.6-3.5 s, thorough also 6 s) producer / consumer stall each; one per shard in quick
     # (a) model checking: safety for every capacity vector / interleaving, liveness with and without consumer drop
     c.tlc_must_pass(ctx, "design", "mc/MCPipeline.tla", "Pipeline_quick.cfg", timeout=3000)
     if not quick:
@@ -153,7 +155,7 @@ def check(ctx):
     scn, nscn = emit(ctx, quick)
     # (c,d) real pipelines under these scripts + seeded random scripts
     tot = drive_sharded(ctx, binp, ["--scenarios", scn, "--random", str(nrand), "--seed", str(ctx.seed), "--max-len", str(maxlen),
-                                    "--scn-len", str(scnlen)], trace)
+                                    "--scn-len", str(scnlen), "--long", str(nlong)], trace)
     # (e) TLC validates every recorded run against the contract
     v = c.validate_trace(ctx, "pipeline", "PipelineTrace.tla", trace, timeout=3000)
     ctx.add_tlc("trace-validation", v.res)
@@ -166,7 +168,9 @@ def check(ctx):
                 "(pipeline, capacities, pacing script, input length)")
     seen = set()
     st = {"sorted": 0, "unsorted": 0, "drop_start": 0, "drop_middle": 0, "drop_end": 0, "no_drop": 0, "caps_used": {},
-          "stage_sets": {}, "remote_wiring": 0, "cap0_or_1_with_full": 0, "recv_events": 0, "max_n_in": 0}
+          "stage_sets": {}, "remote_wiring": 0, "cap0_or_1_with_full": 0, "recv_events": 0, "max_n_in": 0,
+          "long_producer_stall_with_filter": 0, "long_producer_stall_without_filter": 0, "long_producer_stall_with_sort": 0,
+          "long_producer_stall_while_lc_buffers": 0, "long_consumer_stall": 0, "max_producer_stall_ms": 0, "max_consumer_stall_ms": 0}
     for k, evs in cases.items():
         h = evs[0]["hdr"]
         fh = sum(e["n"] for e in evs if e["ev"] == "full_hits")
@@ -174,6 +178,14 @@ def check(ctx):
         nrecv = sum(1 for e in evs if e["ev"] == "recv")
         st["recv_events"] += nrecv
         st["max_n_in"] = max(st["max_n_in"], h["n_in"])
+        st["max_producer_stall_ms"] = max(st["max_producer_stall_ms"], h["max_p_stall_ms"])
+        st["max_consumer_stall_ms"] = max(st["max_consumer_stall_ms"], h["max_c_stall_ms"])
+        if h["max_p_stall_ms"] >= 2500:
+            st["long_producer_stall_with_filter" if "filter" in h["stages"] else "long_producer_stall_without_filter"] += 1
+            st["long_producer_stall_with_sort"] += 1 if h["sorted"] else 0
+            st["long_producer_stall_while_lc_buffers"] += 1 if h["info"].get("variant") == 1 else 0
+        if h["max_c_stall_ms"] >= 2500:
+            st["long_consumer_stall"] += 1
         st["sorted" if h["sorted"] else "unsorted"] += 1
         st["stage_sets"]["+".join(h["stages"])] = st["stage_sets"].get("+".join(h["stages"]), 0) + 1
         st["remote_wiring"] += 1 if "remote_wiring: true" in h["spec"] else 0
@@ -192,7 +204,7 @@ def check(ctx):
     ctx.exhaustive = True
     ctx.extra.update({"tlc_scenarios": nscn, "random_cases": nrand, "cases_run": tot["cases"], "reference_failed_skipped": tot["skipped_ref"],
                       "send_full_hits": tot["full_hits"], "cases_with_full_hits": tot["cases_with_full"], "driver_hung": tot["hung"],
-                      "cases_not_run_after_hang": nscn + nrand - tot["cases"] - tot["skipped_ref"], "trace_events": tot["lines"],
+                      "long_stall_cases": nlong, "cases_not_run_after_hang": nscn + nrand + nlong - tot["cases"] - tot["skipped_ref"], "trace_events": tot["lines"],
                       "paths": st, "shards": NSHARDS})
     ks = sorted(cases)
     for k in ks[:2] + ks[-2:]:
@@ -205,6 +217,10 @@ def check(ctx):
             raise c.ToolError("vacuous run: the Full branch of sync_sender_send_delay_if_full never ran (%s)" % tot)
         if not tot["hung"] and (st["drop_start"] == 0 or st["drop_middle"] == 0 or st["drop_end"] == 0 or st["sorted"] == 0 or st["unsorted"] == 0):
             raise c.ToolError("vacuous run: missing path %s" % st)
+        for k in ("long_producer_stall_with_filter", "long_producer_stall_without_filter", "long_producer_stall_with_sort",
+                  "long_producer_stall_while_lc_buffers", "long_consumer_stall"):
+            if st[k] == 0:
+                raise c.ToolError("vacuous run: no case with path %s (%s)" % (k, st))
         if tot["skipped_ref"] * 4 > nscn + nrand:
             raise c.ToolError("too many reference runs failed (%d): the stream generator left the clean domain" % tot["skipped_ref"])
         binding_selftest(ctx, cases, set(cases))
